@@ -340,13 +340,26 @@ class AST:
     def func_qualname(self, n):
         return '::'.join(self.context_chain(n) + [self.func_qual_leaf(n)])
 
+    def param_sig(self, n):
+        ps = [c['type'].get('desugaredQualType') or c['type']['qualType'] for c in n.get('inner', []) if c.get('kind') == 'ParmVarDecl']
+        return '(' + ', '.join(self.canon_arg(p) for p in ps) + ')'
+
     def find_functions(self, qual):
-        """all function definitions whose qualified name (with template args) equals qual"""
+        """all function definitions whose qualified name (with template args) equals qual;
+        qual may carry a parameter list "name(T1, T2)" to select one overload"""
         res = []
+        want_sig = None
+        if qual.rstrip().endswith(')') and '(' in qual and not qual.rstrip().endswith('operator()'):
+            i = qual.rfind('(')
+            # "operator()" itself contains parentheses
+            want_sig = '(' + ', '.join(self.canon_arg(a) for a in split_top(qual[i + 1:qual.rstrip().rfind(')')])) + ')'
+            qual = qual[:i].strip()
+        cq = self.canon(qual)
         for m, n in self.fn_def.items():
             try:
-                if self.canon(self.func_qualname(n)) == self.canon(qual):
-                    res.append(n)
+                if self.canon(self.func_qualname(n)) == cq:
+                    if want_sig is None or self.param_sig(n) == want_sig:
+                        res.append(n)
             except LowerError:
                 continue
         return res
@@ -567,7 +580,7 @@ class Lowerer:
                     if cc.get('name') == n.get('name') and not cc.get('isImplicit'):
                         sibs += 1
         if sibs > 1 or k == 'CXXConstructorDecl':
-            ps = [c['type'].get('desugaredQualType') or c['type']['qualType'] for c in n.get('inner', []) if c.get('kind') == 'ParmVarDecl']
+            ps = [self.ast.canon_arg(c['type'].get('desugaredQualType') or c['type']['qualType']) for c in n.get('inner', []) if c.get('kind') == 'ParmVarDecl']
             cq = ''
             if n.get('type', {}).get('qualType', '').rstrip().endswith('const noexcept') or re.search(r'\) const', n.get('type', {}).get('qualType', '')):
                 cq = '_c'
